@@ -11,6 +11,7 @@ func init() {
 	registerAnte("C03", monC03)
 	registerAnte("C04", monC04)
 	registerAnte("C16", monC16)
+	registerAnte("C17", monC17)
 	registerAnte("C14", monC14ante)
 	registerAnte("C06", monC06)
 }
